@@ -4,6 +4,8 @@ import json, os, re, time
 from .facts import sh, fileline
 
 VERIF = os.path.dirname(os.path.dirname(os.path.abspath(__file__)))
+# evidence of the registered checks lives in /verif/evidence; self-test runs against scratch variants write elsewhere
+EVDIR = os.environ.get('USA_EVIDENCE', os.path.join(VERIF, 'evidence'))
 
 
 def generic(name):
@@ -125,7 +127,7 @@ def dedup_findings(findings):
 
 
 def write_evidence(pid, tier, seed, level, coverage, assumptions, wall_s, violations):
-    d = os.path.join(VERIF, 'evidence')
+    d = EVDIR
     os.makedirs(d, exist_ok=True)
     ev = {'property_id': pid, 'tier': tier, 'seed': seed, 'level': level, 'coverage': coverage,
           'assumptions': assumptions, 'wall_s': round(wall_s, 2), 'violations': violations}
@@ -138,7 +140,7 @@ def write_evidence(pid, tier, seed, level, coverage, assumptions, wall_s, violat
 
 
 def write_finding(pid, n, finding, prop_title):
-    d = os.path.join(VERIF, 'evidence', 'findings')
+    d = os.path.join(EVDIR, 'findings')
     os.makedirs(d, exist_ok=True)
     p = os.path.join(d, '%s-%d.json' % (pid, n))
     j = finding.to_json()
@@ -151,7 +153,7 @@ def write_finding(pid, n, finding, prop_title):
 
 
 def clear_findings(pid):
-    d = os.path.join(VERIF, 'evidence', 'findings')
+    d = os.path.join(EVDIR, 'findings')
     if os.path.isdir(d):
         for x in os.listdir(d):
             if x.startswith(pid + '-'):
